@@ -169,7 +169,7 @@ func genC01(t *rapid.T, tier string) interface{} {
 	if rapid.IntRange(0, 7).Draw(t, "shape") == 0 {
 		return &hProg{IterLag: genIterLag(t, tier)}
 	}
-	pr := &histProfile{Scripts: true, Batches: true, MaxBlocks: 20, MinBlocksOf: []int{2, 6, 12}, MaxTxs: 5, Evidence: 4, Missed: 2, Restart: 4, Queries: true, ExtraSign: true,
+	pr := &histProfile{Scripts: true, Batches: true, OwnerBias: 2, MaxBlocks: 20, MinBlocksOf: []int{2, 6, 12}, MaxTxs: 5, Evidence: 4, Missed: 2, Restart: 4, Queries: true, ExtraSign: true,
 		TxKinds: defaultTxKinds, Modes: []string{"", "", "check", "simulate"}, WrongSigner: 12}
 	if tier == "thorough" {
 		pr.MaxBlocks = 60
